@@ -221,6 +221,8 @@ func C11(p *load.Prog, r *oblig.Run) {
 	r.Rule("R11.f", "util.WorkerPool starts exactly the requested number of workers", 1)
 	workerCount(p, r, "R11.f")
 	r.Rule("R11.g", "a pipeline stage's goroutine does nothing after closing the channel the stage returned", 3)
+	r.Rule("R11.k", "a job producer that does not consult the already-sent maps runs before every producer that marks individuals as sent", 2)
+	producerOrder(p, r, "R11.k")
 	r.Rule("R11.h", "the Left (Right) of every comparison the pipeline builds is an individual of the left (right) list", 4)
 	listSides(p, r, "R11.h", root, concurrentRegion(g, root))
 	stages := []*ssa.Function{p.Func(load.PkgRoot, "createJobs"), p.Method(load.PkgRoot, "IndividualNodesCompareOptions", "processJobs"),
